@@ -7,7 +7,9 @@
   4. run the registered checks against the patched tree and record which of them report a violation
 
 Everything happens in scratch directories under /tmp that are removed afterwards; /repo is never modified.
-usage: curate_seeded.py [--suite] [--only C01-A,...] [--checks-runs N]
+usage: curate_seeded.py [--suite] [--only C01-A,...] [--checks-runs N] [--round K]
+When the agents' scratch output (/tmp/wt/out<K>) no longer exists, the tool re-verifies the curated copies in seeded/
+(demo on the tree / with the patch, registered checks against the patched copy) without rewriting them.
 """
 import argparse
 import json
@@ -53,6 +55,34 @@ def run_demo(demo, src):
         return 124, ["timeout"]
 
 
+def recheck(a, only):
+    """Re-run demo (tree / patched) and the registered checks for the changes already in seeded/."""
+    for sid in sorted(os.listdir(SEEDED)):
+        if only and sid not in only:
+            continue
+        dst = os.path.join(SEEDED, sid)
+        meta = json.load(open(os.path.join(dst, "meta.json")))
+        prop = meta["property"]
+        work = tempfile.mkdtemp(prefix="/tmp/seed.")
+        try:
+            diff, err = rebase(os.path.join(dst, "patch.diff"), work)
+            if not diff:
+                print(sid, "PATCH DOES NOT APPLY", err[:200])
+                continue
+            rc0, _ = run_demo(os.path.join(dst, "demo.py"), "/repo/src")
+            rc1, _ = run_demo(os.path.join(dst, "demo.py"), os.path.join(work, "src"))
+            det = []
+            if a.checks_runs:
+                for chk in [prop] + EXTRA_CHECKS.get(prop, []):
+                    r = subprocess.run(["/verif/check", chk, "--no-evidence"] + (["--runs", str(a.checks_runs)] if a.checks_runs > 0 else []),
+                                       env=dict(os.environ, VERIF_ANYIO_SRC=os.path.join(work, "src")), capture_output=True, text=True, timeout=1500)
+                    if r.returncode == 1:
+                        det.append(chk)
+            print(sid, "demo ok" if (rc0, rc1) == (0, 1) else f"DEMO MISMATCH {rc0}/{rc1}", det)
+        finally:
+            shutil.rmtree(work, ignore_errors=True)
+
+
 def main():
     ap = argparse.ArgumentParser()
     ap.add_argument("--suite", action="store_true")
@@ -66,6 +96,9 @@ def main():
     only = set(a.only.split(",")) if a.only else None
     os.makedirs(SEEDED, exist_ok=True)
     summary = []
+    if not os.path.isdir(OUT):
+        # the agents' scratch output is gone: re-verify the curated copies in seeded/ themselves (all rounds)
+        return recheck(a, only)
     for prop in sorted(os.listdir(OUT)):
         for variant in sorted(os.listdir(os.path.join(OUT, prop))):
             src_dir = os.path.join(OUT, prop, variant)
